@@ -375,10 +375,15 @@ fn valid_chunk(rng: &mut Rng, start: bool, size: usize) -> Vec<u8> {
 }
 
 fn run_download(obs: &mut Obs, rng: &mut Rng, idx: u64, big: usize) {
+    run_download_with(obs, rng, idx, big, None)
+}
+
+fn run_download_with(obs: &mut Obs, rng: &mut Rng, idx: u64, big: usize, force_status: Option<u16>) {
     let sim = s3sim::global();
     let site = s3sim::fresh_site();
     let archive_mode = rng.chance(1, 2);
     let status = *rng.pick(&[200u16, 200, 200, 200, 404, 403, 500, 301, 0, 2001]); // 0 = object absent, 2001 = body cut short
+    let status = force_status.unwrap_or(status);
     // Last-Modified: absent, in the past, or (a sixth) later than this machine's clock - minutes
     // ahead as with skewed clocks, or years ahead
     let lm = match rng.below(12) {
@@ -549,6 +554,26 @@ distinct = distinct (scenario kind, object count class, key hostility, nesting, 
     let total: u64 = ctx.tier.pick(6_000, 200_000);
     let big = ctx.tier.pick(256 * 1024, 4 * 1024 * 1024);
     let seed = ctx.seed;
+    // Before the parallel cases, while nothing else talks to the simulator: runs of downloads that
+    // all fail on the server's side (500 / 503 / a body cut short), each run followed at once by
+    // downloads of stored objects and of a missing one.  Whatever the failures left behind in the
+    // process, the next download is answered on its own merits.
+    {
+        let mut obs = Obs::new();
+        let mut rng = Rng::derive(seed, 17, u64::MAX);
+        for burst in 0..ctx.tier.pick(3u64, 12u64) {
+            for k in 0..(6 + burst % 5) {
+                let st = *rng.pick(&[500u16, 503, 500, 2001]);
+                run_download_with(&mut obs, &mut rng, 1_000_000 + burst * 100 + k, 2048, Some(st));
+            }
+            for k in 0..4 {
+                let st = [200u16, 200, 0, 200][k as usize];
+                run_download_with(&mut obs, &mut rng, 2_000_000 + burst * 100 + k, 2048, Some(st));
+            }
+            obs.count("runs_of_failed_downloads_followed_by_good_ones", 1);
+        }
+        ctx.obs.merge(obs);
+    }
     par_cases(ctx, total, |i, obs| {
         let mut rng = Rng::derive(seed, 17, i);
         match i % 6 {
